@@ -254,7 +254,7 @@ int main(int argc, char** argv) {
     else if (part == "perft") {
         auto seeds = uni::readSeeds(w.args.get("seeds", "corpus/seeds.fen"));
         int d = (int)w.args.getInt("depth", 3);
-        uni::UPERFT(seeds, d, P, [&](const orc::Board& b, unsigned long long, int) { checkPosition(b); });
+        uni::UPERFT(seeds, d, P, [&](const orc::Board& b, unsigned long long, int) { checkPosition(b); }, 2, [&]() { return w.dl.hit(); }); if (w.dl.hit()) R.exhaustive = false;
     }
     else { fprintf(stderr, "unknown part\n"); return 2; }
     w.finish(R);
